@@ -63,6 +63,10 @@ pub enum JsonLdError {
     #[error("{0}")]
     InvalidLanguageTag(#[from] sophia_api::term::language_tag::InvalidLanguageTag),
 
+    /// The JSON-LD processor produced a blank node identifier that Sophia does not accept
+    #[error("{0}")]
+    InvalidBnodeId(#[from] sophia_api::term::bnode_id::InvalidBnodeId),
+
     /// An UTF-8 error was encountered while parsing from a [`BufRead`](std::io::BufRead)
     #[error("{0}")]
     Utf8(#[from] std::string::FromUtf8Error),
